@@ -349,8 +349,12 @@ impl Pr<'_> {
                 format!("{{ let {pat} = {}; {out} }}", self.expr(a))
             }
             Expr::StructLit(s, es) => {
-                let parts: Vec<String> =
-                    es.iter().enumerate().map(|(i, x)| format!("m{i}: {}", self.expr(x))).collect();
+                // Members are written (and therefore evaluated) in `struct_lit_order`, which is not
+                // the declaration order for two thirds of the struct types.
+                let parts: Vec<String> = struct_lit_order(*s, es.len())
+                    .into_iter()
+                    .map(|i| format!("m{i}: {}", self.expr(&es[i])))
+                    .collect();
                 format!("S{s} {{ {} }}", parts.join(", "))
             }
             Expr::Field(a, _, i) => format!("{}.m{i}", self.expr(a)),
@@ -1910,14 +1914,26 @@ fn writes_expr(e: &Expr, out: &mut std::collections::BTreeSet<String>) {
         _ => {}
     }
 }
+/// The order in which the members of a literal of struct type `S<s>` with `n` members are written
+/// in the source - the order in which they are evaluated: rotated by one, declaration order, or
+/// reversed, by struct index. The printer, the reference evaluator and the operand-order analysis
+/// all use this one function.
+pub fn struct_lit_order(s: usize, n: usize) -> Vec<usize> {
+    match (n >= 2, s % 3) {
+        (true, 0) => (0..n).map(|k| (k + 1) % n).collect(),
+        (true, 2) => (0..n).rev().collect(),
+        _ => (0..n).collect(),
+    }
+}
 /// The ordered operand expressions of `e` (blocks are handled by the callers).
 fn children(e: &Expr) -> Vec<&Expr> {
     match e {
+        Expr::StructLit(s, es) => struct_lit_order(*s, es.len()).into_iter().map(|i| &es[i]).collect(),
         Expr::Bin(_, _, a, b) | Expr::Cmp(_, _, a, b) | Expr::AndAnd(a, b) | Expr::OrOr(a, b) | Expr::UnwrapOr(a, b) => vec![a, b],
         Expr::Neg(_, a) | Expr::BitNot(_, a) | Expr::Not(a) | Expr::Into(_, _, a) | Expr::TryIntoUnwrap(_, _, a) | Expr::TryInto(_, _, a) | Expr::TupleField(a, _, _)
         | Expr::Permute(a, _, _) | Expr::Field(a, _, _) | Expr::Some_(a) | Expr::Unwrap(a) | Expr::IsSome(a) | Expr::ArrAt(_, a) | Expr::ArrGet(_, a) | Expr::DictGet(_, a)
         | Expr::SpanAt(_, a) => vec![a],
-        Expr::Tuple(es) | Expr::StructLit(_, es) => es.iter().collect(),
+        Expr::Tuple(es) => es.iter().collect(),
         Expr::EnumLit(_, _, Some(p)) => vec![p],
         Expr::If(c, _, _) | Expr::MatchBool(c, _, _) | Expr::MatchOpt(c, _, _, _) | Expr::MatchEnum(_, c, _) | Expr::MatchNum(_, c, _, _) => vec![c],
         Expr::Call(_, args) => args.iter().filter_map(|a| if let Arg::Val(e) = a { Some(e) } else { None }).collect(),
